@@ -58,12 +58,51 @@ func unhexes(ss []string) []common.Uint256 {
 	return out
 }
 
+// cb prints a byte string as (B len words): 7 bytes per primitive 63-bit integer, little-endian
+// (see Corr/C27.v); cases.v is read in uint63_scope.
+func cb(b []byte) string {
+	if len(b) == 0 {
+		return "(B 0 nil)"
+	}
+	var ws []string
+	for i := 0; i < len(b); i += 7 {
+		var w uint64
+		for j := 0; j < 7 && i+j < len(b); j++ {
+			w |= uint64(b[i+j]) << uint(8*j)
+		}
+		ws = append(ws, fmt.Sprintf("%d", w))
+	}
+	return fmt.Sprintf("(B %d %s)", len(b), consList(ws))
+}
+
+// consList prints a Coq list with explicit constructors (the [a;b] notation is several times
+// slower to elaborate on large terms).
+func consList(items []string) string {
+	var sb strings.Builder
+	for _, it := range items {
+		sb.WriteString("(cons ")
+		sb.WriteString(it)
+		sb.WriteByte(' ')
+	}
+	sb.WriteString("nil")
+	sb.WriteString(strings.Repeat(")", len(items)))
+	return sb.String()
+}
+
+func parens(items []string) []string {
+	out := make([]string, len(items))
+	for i, it := range items {
+		out[i] = "(" + it + ")"
+	}
+	return out
+}
+
 func coqHashes(hs []common.Uint256) string {
 	var it []string
 	for _, h := range hs {
-		it = append(it, hx.CoqBytes(h[:]))
+		it = append(it, cb(h[:]))
 	}
-	return hx.CoqList(it)
+	return consList(it)
 }
 
 // ---- running the implementation ----
@@ -75,7 +114,7 @@ func leafPath(data []byte, hs []common.Uint256) (path []byte, coq string, kind s
 	case panicked:
 		return nil, "(inl EPanic)", "panic:" + msg
 	case err == nil:
-		return path, "(inr " + hx.CoqBytes(path) + ")", "ok"
+		return path, "(inr " + cb(path) + ")", "ok"
 	case strings.Contains(err.Error(), "over max value"):
 		return nil, "(inl ETooLarge)", "too-large"
 	case strings.Contains(err.Error(), "doesn't exist"):
@@ -91,7 +130,7 @@ func prove(path []byte, root common.Uint256) (value []byte, coq string, kind str
 	case panicked:
 		return nil, "(inl EPanicV)", "panic:" + msg // no such constructor: the case fails to type-check on purpose
 	case err == nil:
-		return value, "(inr " + hx.CoqBytes(value) + ")", "ok"
+		return value, "(inr " + cb(value) + ")", "ok"
 	case err.Error() == "read bytes error":
 		return nil, "(inl EReadBytes)", "read-bytes"
 	case err.Error() == "read byte error":
@@ -368,7 +407,7 @@ func listCase(c *hx.Ctx, n int, everyMember bool, nMutated int) {
 		}
 		p, coq := oracleComplete(c, hs, rfc, values[i])
 		paths[i] = p
-		items = append(items, "IPath "+hx.CoqBytes(values[i])+" "+coq)
+		items = append(items, "IPath "+cb(values[i])+" "+coq)
 		if p != nil {
 			t.refProve(p)
 			c.Nontrivial(fmt.Sprintf("member/%d/%d/%x", n, i, hs[i][:4]))
@@ -385,12 +424,12 @@ func listCase(c *hx.Ctx, n int, everyMember bool, nMutated int) {
 				replayIn{Kind: "complete", Hashes: hexes(hs), Data: hx.Hex(nm), Note: "non-member"}, kind, "not-found")
 		}
 		t.leaf(nm)
-		items = append(items, "IPath "+hx.CoqBytes(nm)+" "+coq)
+		items = append(items, "IPath "+cb(nm)+" "+coq)
 	}
 	addProve := func(what string, p []byte, root common.Uint256) {
 		t.refProve(p)
 		coq := oracleSound(c, hs, root, p, what)
-		items = append(items, "IProve "+hx.CoqBytes(p)+" "+hx.CoqBytes(root[:])+" "+coq)
+		items = append(items, "IProve "+cb(p)+" "+cb(root[:])+" "+coq)
 		c.Nontrivial(fmt.Sprintf("prove/%s/%d/%x", what, n, p))
 	}
 	// mutated paths of a few members
@@ -421,6 +460,13 @@ func listCase(c *hx.Ctx, n int, everyMember bool, nMutated int) {
 		if (n+m)%4 == 0 {
 			addProve("foreign-root", paths[i], foreign)
 		}
+	}
+	// paths without steps: a bare value is accepted only if its leaf hash is the root itself
+	addProve("bare-nonmember-value", encodePath(c.Bytes(1+c.Intn(12)), nil), rfc)
+	addProve("bare-member-value", encodePath(values[c.Intn(n)], nil), rfc)
+	if n%16 == 1 {
+		addProve("empty-path", nil, rfc)
+		addProve("empty-value-only", []byte{0}, rfc)
 	}
 	// domain-separation attack A: present the preimage body (left||right) of an inner node as a value
 	if len(levels) >= 2 && n >= 2 {
@@ -460,15 +506,15 @@ func listCase(c *hx.Ctx, n int, everyMember bool, nMutated int) {
 		if kind == "ok" && bytes.Equal(got, v) {
 			c.Note("precondition probe: a one-element list [HashChildren(HashLeaf(v), s)] lets the path (v, RIGHT s) prove v (theorem c27_node_as_leaf_accepts); the chain only ever appends HashLeaf(data) to the list")
 		}
-		c.Case(fmt.Sprintf("(CList %s %s %s %s [IProve %s %s %s])", t2.coq(), coqHashes([]common.Uint256{el}), hx.CoqBytes(el[:]),
-			hx.CoqList([]string{coqHashes([]common.Uint256{el})}), hx.CoqBytes(p), hx.CoqBytes(el[:]), coq),
+		c.Case(fmt.Sprintf("(CList %s %s %s %s (cons (IProve %s %s %s) nil))", t2.coq(), coqHashes([]common.Uint256{el}), cb(el[:]),
+			consList([]string{coqHashes([]common.Uint256{el})}), cb(p), cb(el[:]), coq),
 			map[string]interface{}{"kind": "probe-node-as-leaf", "element": hx.Hex(el[:]), "path": hx.Hex(p)})
 	}
 	var lv []string
 	for _, l := range levels {
 		lv = append(lv, coqHashes(l))
 	}
-	c.Case(fmt.Sprintf("(CList %s\n  %s\n  %s\n  %s\n  [%s])", t.coq(), coqHashes(hs), hx.CoqBytes(rfc[:]), hx.CoqList(lv), strings.Join(items, ";\n   ")),
+	c.Case(fmt.Sprintf("(CList %s\n  %s\n  %s\n  %s\n  %s)", t.coq(), coqHashes(hs), cb(rfc[:]), consList(lv), consList(parens(items))),
 		map[string]interface{}{"kind": "list", "hashes": hexes(hs), "items": len(items)})
 	if n == 3 || n == 5 {
 		c.Sample(map[string]interface{}{"n": n, "hashes": hexes(hs), "root": hx.Hex(rfc[:]), "member0_path": hx.Hex(paths[0]), "items": len(items)})
@@ -503,6 +549,7 @@ func replay(c *hx.Ctx, in replayIn) {
 
 func Run(c *hx.Ctx) {
 	c.CoqModule("Corr.C27")
+	c.CoqHeader("Open Scope uint63_scope.")
 	var in replayIn
 	if c.ReplayInput(&in) {
 		replay(c, in)
@@ -523,7 +570,7 @@ func Run(c *hx.Ctx) {
 	depthCase := func(n int) {
 		d := merkle.VerifDepth(n)
 		c.Eval()
-		c.Case(fmt.Sprintf("(CDepth %d %s)", n, hx.CoqZ(int64(d))), map[string]interface{}{"kind": "depth", "n": n, "depth": d})
+		c.Case(fmt.Sprintf("(CDepth %d%%N %s)", n, hx.CoqZ(int64(d))), map[string]interface{}{"kind": "depth", "n": n, "depth": d})
 	}
 	for n := 0; n <= 33; n++ {
 		depthCase(n)
@@ -542,13 +589,13 @@ func Run(c *hx.Ctx) {
 		d := c.Bytes([]int{0, 1, 31, 54, 55, 56, 64, 100}[c.Intn(8)])
 		h := merkle.HashLeaf(d)
 		c.Eval()
-		c.Case(fmt.Sprintf("(CHash true %s [] %s)", hx.CoqBytes(d), hx.CoqBytes(h[:])), map[string]interface{}{"kind": "hashleaf", "data": hx.Hex(d)})
+		c.Case(fmt.Sprintf("(CHash true %s nil %s)", cb(d), cb(h[:])), map[string]interface{}{"kind": "hashleaf", "data": hx.Hex(d)})
 		var l, r common.Uint256
 		copy(l[:], c.Bytes(32))
 		copy(r[:], c.Bytes(32))
 		hc := merkle.HashChildren(l, r)
 		c.Eval()
-		c.Case(fmt.Sprintf("(CHash false %s %s %s)", hx.CoqBytes(l[:]), hx.CoqBytes(r[:]), hx.CoqBytes(hc[:])), map[string]interface{}{"kind": "hashchildren"})
+		c.Case(fmt.Sprintf("(CHash false %s %s %s)", cb(l[:]), cb(r[:]), cb(hc[:])), map[string]interface{}{"kind": "hashchildren"})
 	}
 	// 3. small lists end to end with the real SHA-256 model
 	for _, n := range []int{1, 2, 3}[:c.N(3, 3)] {
@@ -557,13 +604,13 @@ func Run(c *hx.Ctx) {
 		hs := make([]common.Uint256, n)
 		for i := range xs {
 			xs[i] = c.Bytes(1 + c.Intn(10))
-			cx = append(cx, hx.CoqBytes(xs[i]))
+			cx = append(cx, cb(xs[i]))
 			hs[i] = merkle.HashLeaf(xs[i])
 		}
 		rfc, _ := rfcRoot(hs)
 		i := c.Intn(n)
 		_, coq := oracleComplete(c, hs, rfc, xs[i])
-		c.Case(fmt.Sprintf("(CSha %s %s %s %s)", hx.CoqList(cx), hx.CoqBytes(xs[i]), coq, hx.CoqBytes(rfc[:])), map[string]interface{}{"kind": "sha", "n": n})
+		c.Case(fmt.Sprintf("(CSha %s %s %s %s)", consList(cx), cb(xs[i]), coq, cb(rfc[:])), map[string]interface{}{"kind": "sha", "n": n})
 	}
 	// 4. the empty list: RFC root is sha256(""), MerkleLeafPath reports not-found (never reaches depth(0))
 	{
@@ -576,7 +623,7 @@ func Run(c *hx.Ctx) {
 			c.Fail("leafpath:empty-list", "MerkleLeafPath on an empty list reports not-found", replayIn{Kind: "complete", Data: "010203"}, kind, "not-found")
 		}
 		t.leaf([]byte{1, 2, 3})
-		c.Case(fmt.Sprintf("(CList %s [] %s [] [IPath [1;2;3] %s])", t.coq(), hx.CoqBytes(rfc[:]), coq), map[string]interface{}{"kind": "empty-list"})
+		c.Case(fmt.Sprintf("(CList %s nil %s nil (cons (IPath %s %s) nil))", t.coq(), cb(rfc[:]), cb([]byte{1, 2, 3}), coq), map[string]interface{}{"kind": "empty-list"})
 	}
 	// 5. lists of 1..64 hashes, every member
 	maxN := 64
